@@ -560,3 +560,48 @@ func tssOne(c tssCase, F *findings) {
 		}
 	}
 }
+
+// TestVerifThresholdRSAGeneratedKeys: keys produced by the package's own
+// GenerateKey (safe primes, math.SafePrime): well-formed, and every subset of
+// a few (l,k) signs.  crypto/rand.Prime deliberately consumes a random number
+// of octets, so these keys are not a function of VERIF_SEED; the primes are
+// part of every witness.
+func TestVerifThresholdRSAGeneratedKeys(t *testing.T) {
+	lib.Mandatory("tssgen:keys", "tssgen:safe-primes")
+	n := lib.Scale(3, 32)
+	F := &findings{}
+	lib.Par(n, func(i int) {
+		bits := 512
+		if i%8 == 7 {
+			bits = 768
+		}
+		var key *rsa.PrivateKey
+		var err error
+		if p := lib.Try("tss/rsa.GenerateKey", []byte(fmt.Sprint(bits, i)), func() { key, err = tss.GenerateKey(lib.NewRng("c17/tssgen", i), bits) }); p != nil || err != nil {
+			lib.Violation("C17:generate-key-fails:tss-rsa:GenerateKey", monTSS, lib.D("bits", bits, "err", err, "panic", fmt.Sprint(p != nil)))
+			return
+		}
+		lib.Count("tssgen:keys")
+		name := fmt.Sprintf("generated-%d:p=%x:q=%x", bits, key.Primes[0], key.Primes[1])
+		half := func(p *big.Int) *big.Int { return new(big.Int).Rsh(p, 1) }
+		ok := key.Validate() == nil && key.N.BitLen() == bits && len(key.Primes) == 2
+		if ok {
+			for _, p := range key.Primes {
+				ok = ok && p.ProbablyPrime(32) && half(p).ProbablyPrime(32)
+			}
+		}
+		if !ok {
+			lib.Violation("C17:generated-key-malformed:tss-rsa:GenerateKey", monTSS, lib.D("bits", bits, "key", name, "validate", key.Validate()))
+			return
+		}
+		lib.Count("tssgen:safe-primes")
+		for j, lk := range [][2]int{{3, 2}, {4, 3}, {5, 2}, {6, 6}} {
+			pad := padSpec{"pkcs1v15", crypto.SHA256, nil}
+			if (i+j)%2 == 1 {
+				pad = padSpec{"pss", crypto.SHA256, nil}
+			}
+			tssOne(tssCase{key: rsaKey{name, key}, l: lk[0], k: lk[1], pad: pad, exhaustive: true, idx: i*8 + j}, F)
+		}
+	})
+	F.emit()
+}
